@@ -251,6 +251,49 @@ def entry_binding(seed, tier):
     return items
 
 
+def entry_bounds(seed, tier):
+    """entry arrays followed (and preceded) by scalar parameters: every element is written through the array's own
+    length, the cell one past the real end must be out_of_bounds, and what lies behind the argument array (a global, the
+    next entry datum) must keep its value (wave 10: `entry_array_length_trailing_args`)"""
+    items = []
+    forms = [('int[]', 'int', ['11', '22', '33'], '0'), ('byte[]', 'byte', ['65', '66'], '\'z\''),
+             ('const int[]', 'int', ['5', '-6', '7', '8'], None), ('const byte[]', 'byte', ['72'], None),
+             ('int[]', 'int', [], '0'), ('const string[]', 'string', ['ab', 'c'], None)]
+    tails = [('', []), (', int t0', ['9']), (', int t0, byte t1', ['9', '66']), (', string t0, int t1', ['xy', '4'])]
+    heads = [('', []), ('int h0, ', ['3'])]
+    for fi, (at, et, vals, fill) in enumerate(forms):
+        for ti, (tp, tv) in enumerate(tails):
+            for hi, (hp, hv) in enumerate(heads):
+                if tier == 'quick' and hi == 1 and ti in (0, 3):
+                    continue
+                body = ['write(xs.length); write(\' \');']
+                if et == 'string':
+                    body.append('for (int k = 0; k < xs.length; k += 1) { write(xs[k]); write(xs[k].length); }')
+                elif fill is not None:
+                    body.append('for (int k = 0; k < xs.length; k += 1) { xs[k] = %s; }' % fill)
+                    body.append('for (int k = 0; k < xs.length; k += 1) { write(xs[k] is int); write(\',\'); }')
+                else:
+                    body.append('int sum = 0; for (int k = 0; k < xs.length; k += 1) { sum += xs[k]; } write(sum);')
+                body.append('write(\' \'); write(canary); write(\' \');')
+                for j in range(len(tv)):
+                    body.append('write(t%d); write(\' \');' % j)
+                for j in range(len(hv)):
+                    body.append('write(h%d); write(\' \');' % j)
+                # `at` is taken from the LAST scalar when there is one, else it is the literal length
+                probe = 'xs[at]' if et != 'string' else 'xs[at].length'
+                src = ('int canary = 1234;\nempty @is_you(%s%s xs%s, int at) { %s write(%s is int); write(canary); }'
+                       % (hp, at, tp, ' '.join(body), probe))
+                n = len(vals)
+                for at_v in sorted({n, n - 1, -1, n + len(tv) + 1}):
+                    if at_v == n - 1 and n == 0:
+                        continue
+                    args = hv + vals + tv + [str(at_v)]
+                    for w in ([2] if tier == 'quick' else [2, 3, 4]):
+                        items.append(runner.Item(('entry_bounds', fi, ti, hi, at_v, w), src, args, w=w, s=100,
+                                                 meta={'family': 'entry_bounds', 'classifier': {'seq': 'entry_bounds'}}))
+    return items
+
+
 MISC = [
     ('builtins', 'empty @is_you(int a) { write(\'a\'); sleep(a); debug(); progress(); sleep(0); write(\'b\'); if (a == 1) { all_is_win(); } if (a == 2) { all_is_broken(); } write(\'c\'); }', [['0'], ['1'], ['2'], ['-1'], ['32767']]),
     ('overloads', '''int f(int a) { return 1; } int f(byte a) { return 2; } int f(bool a) { return 3; } int f(string a) { return 4; }
